@@ -21,6 +21,7 @@ var verifHashes = []string{"h1", "h2", "?", ""}
 // files can be opened, and what the listing command answers.
 type verifWorld struct {
 	hashP, hashD   string // current fingerprints of package p and of its dependency d
+	hashE          string // ... and of a second dependency e
 	listFails      bool
 	listHasP       bool   // the listing mentions p
 	listDepD       bool   // ... with dependency d
@@ -39,6 +40,8 @@ func (w *verifWorld) hash(path string, self bool) string {
 		return w.hashP
 	case "d":
 		return w.hashD
+	case "e":
+		return w.hashE
 	}
 	return HashSkip
 }
@@ -56,7 +59,7 @@ func (w *verifWorld) setup(oldFile string) (oldPath, newPath string, cleanup fun
 			}
 			e := exportPkg{path: "p", expfile: newPath}
 			if w.listDepD {
-				e.deps = []string{"d"}
+				e.deps = []string{"d", "e"}
 			}
 			return []exportPkg{e}, nil
 		})
@@ -99,7 +102,7 @@ func (w *verifWorld) setup(oldFile string) (oldPath, newPath string, cleanup fun
 	default:
 		deps := "[]"
 		if w.listDepD {
-			deps = "[d]"
+			deps = "[d e]"
 		}
 		script += fmt.Sprintf("printf 'p\\t%s\\t%s\\n'\n", newPath, deps)
 	}
@@ -125,7 +128,7 @@ func verifFileName(f io.ReadCloser) string {
 // One Find from an arbitrary cache state in an arbitrary world.
 func VerifH_C20_find() {
 	w := &verifWorld{
-		hashP: vp.Pick("world.hashP", verifHashes...), hashD: vp.Pick("world.hashD", verifHashes...),
+		hashP: vp.Pick("world.hashP", verifHashes...), hashD: vp.Pick("world.hashD", verifHashes...), hashE: vp.Pick("world.hashE", "h1", "h2", ""),
 		listFails: vp.Bool("list.fails"), listHasP: vp.Bool("list.hasP"), listDepD: vp.Bool("list.depD"),
 		newFile: vp.Pick("list.file", "p.a", "p2.a"),
 		openOld: vp.Bool("open.old"), openNew: vp.Bool("open.new"),
@@ -135,6 +138,8 @@ func VerifH_C20_find() {
 	recHash := vp.Pick("pre.hash", verifHashes...)
 	hasDep := vp.Bool("pre.hasDep")
 	recDepHash := vp.Pick("pre.depHash", "h1", "h2", "?")
+	hasDep2 := vp.Bool("pre.hasDep2")
+	recDep2Hash := vp.Pick("pre.dep2Hash", "h1", "h2")
 	if w.newFile == "p.a" {
 		vp.Assume(w.openNew == w.openOld) // one file: one answer
 	}
@@ -144,11 +149,14 @@ func VerifH_C20_find() {
 	if hasEntry {
 		e := &pkgCache{expfile: oldPath, hash: recHash}
 		if hasDep {
-			e.deps = []depPkg{{"d", recDepHash}}
+			e.deps = append(e.deps, depPkg{"d", recDepHash})
+		}
+		if hasDep2 {
+			e.deps = append(e.deps, depPkg{"e", recDep2Hash})
 		}
 		c.cache.Store("p", e)
 	}
-	fresh := hasEntry && recHash != HashInvalid && w.hashP == recHash && (!hasDep || w.hashD == recDepHash)
+	fresh := hasEntry && recHash != HashInvalid && w.hashP == recHash && (!hasDep || w.hashD == recDepHash) && (!hasDep2 || w.hashE == recDep2Hash)
 	f, err := c.Find(".", "p")
 	served := f != nil && err == nil
 	if f != nil && !vp.Symbolic() {
@@ -175,6 +183,24 @@ func VerifH_C20_find() {
 			// what is recorded now is what the world says now
 			val, ok := c.cache.Load("p")
 			vp.Assert("C20.find.relisted.recorded", ok && val.(*pkgCache).expfile == newPath && val.(*pkgCache).hash == w.hashP)
+			if ok {
+				// recorded dependencies: exactly the listed ones whose fingerprint is not HashSkip, with the current fingerprints
+				var want []depPkg
+				if w.listDepD {
+					if w.hashD != HashSkip {
+						want = append(want, depPkg{"d", w.hashD})
+					}
+					if w.hashE != HashSkip {
+						want = append(want, depPkg{"e", w.hashE})
+					}
+				}
+				got := val.(*pkgCache).deps
+				same := len(got) == len(want)
+				for i := 0; same && i < len(want); i++ {
+					same = got[i] == want[i]
+				}
+				vp.Assert("C20.find.relisted.deps", same)
+			}
 		} else if !hasEntry {
 			vp.Assert("C20.find.unknown.error", !served && err != nil)
 		}
